@@ -506,6 +506,36 @@ def run(ctx, ck):
               'UnboundLocalError on that path' % name)
     ck.ob('R-DEFASSIGN.main', 'main|locals', True, mainf.loc(),
           '%d locals of main analysed with correlated-guard path feasibility' % len(fl.rd.names))
+    # a constructor that refuses its arguments has not yet changed the object it was given: the geo object computes
+    # its radius from an attached insulation load, so a load attached before its own radius was validated makes the
+    # validation itself run on garbage (division by zero, complex comparison) instead of raising the ValueError main reports
+    ck.rule('R-ORDER.validate-before-attach', 'a load constructor stores nothing into the geo object it is given on a path that ends in a refusal')
+    from ..symx import SymExec as _SX2
+    n_vb = 0
+    for ci_ in sorted(m.classes.values(), key=lambda c_: c_.name):
+        if not any(b_.name in ('_Load', 'Distributed_Load') for b_ in ci_.mro[1:]):
+            continue
+        g_ = ci_.methods.get('__init__')
+        if g_ is None:
+            continue
+        params_ = set(g_.params[1:])
+        sx2 = _SX2(ctx, g_, effects=True, depth=3, max_paths=2000)
+        sx2.self_cls = ci_.name
+        bad_ = None
+        npaths_ = 0
+        for p_ in sx2.run():
+            npaths_ += 1
+            if p_.end != 'raise':
+                continue
+            foreign = [ev_ for ev_ in p_.events if ev_[0] == 'store' and ev_[1].split('.')[0] in params_ and '.' in ev_[1]]
+            if foreign:
+                bad_ = bad_ or foreign[0][1]
+        n_vb += 1
+        ck.ob('R-ORDER.validate-before-attach', g_.qual, bad_ is None, g_.loc(),
+              'every refusal comes before the geo object is touched (%d paths)' % npaths_ if bad_ is None else
+              '%s is stored on a path that then refuses the arguments: the remaining checks (and the caller) see an object '
+              'that is already changed - Geobj.r is computed from an attached insulation load' % bad_)
+    ck.floor('load constructors', n_vb, 2)
     # a degenerate wire is refused with a diagnostic wherever it can arise: every operation that moves the end points
     # of a wire re-runs the zero-length validation (its ValueError is what main turns into "Invalid geo-scale option")
     ck.rule('R-VALID.revalidate', 'every Wire method that changes p1 / p2 reaches the zero-length validation')
